@@ -32,10 +32,10 @@ prop('C02', 'p32', 'exploration',
      'rapid state machine (t.Repeat) over (bitmap, interval-set model): 15 mutation/maintenance rules incl. a constructive rule that drives a chosen chunk to exactly 0/1/4095/4096/4097/65535/65536 elements; '
      'initial state empty or any generated bitmap in any storage form; contents compared after every step. Non-trivial = history contains a range op spanning >=2 chunks or a step that changed the kind signature of the chunks (hook); distinct = FNV-64 of initial state + op list',
      T(4, 500, 16, 8000),
-     'model-based stateful property testing (rapid state machine) against an interval-set model',
+     'model-based stateful property testing (rapid state machine) against an interval-set model; thorough tier adds a coverage-guided native fuzz campaign over byte-coded operation scripts (FuzzOps32)',
      'generated histories compared step by step with a model; bounded length (~30-60 steps), no proof of absence',
      'trusted: interval-set model (self-tested); hook used only for classification',
-     COMMON_ASSUME)
+     COMMON_ASSUME, fuzz=[('p32', 'FuzzOps32', 120)])
 
 prop('C03', 'p32', 'exploration',
      'rapid draws a bitmap (shape x kind per chunk x storage form) and query arguments biased to elements, element+-1, chunk edges, 0, 2^32-1, 2^32; every scalar query is compared with the interval-set model; '
@@ -112,9 +112,9 @@ prop('C09', 'p32', 'exploration',
      'and strict independent decode of ToBytes() (cardinality fields == popcount, arrays strictly increasing, runs sorted/non-overlapping/NON-ADJACENT/in range); ToBytes failing is itself a violation. '
      'Non-trivial = some step changed the kind signature of the pool (a chunk changed kind, appeared or disappeared); distinct = FNV-64 of the op list',
      T(8, 300, 16, 4000),
-     'stateful property testing of a data-structure invariant (rapid state machine), with an oracle independent of Validate()',
+     'stateful property testing of a data-structure invariant (rapid state machine), with an oracle independent of Validate(); thorough tier adds a coverage-guided native fuzz campaign over byte-coded operation scripts (FuzzWellFormed32)',
      'generated histories; invariant checked after every step by Validate() and by an independent structural walk',
-     'trusted: independent portable decoder; hook for the in-memory walk', SER_ASSUME)
+     'trusted: independent portable decoder; hook for the in-memory walk', SER_ASSUME, fuzz=[('p32', 'FuzzWellFormed32', 120)])
 
 prop('C14', 'p32', 'exploration',
      POOL_RULES + ', plus serialization round trips; histories start from the empty bitmap. Invariant after every step, for every member, before and after RunOptimize (on a clone): with N=cardinality and x in {max+1, max+2, next chunk edge, +1 chunk, 2^32}: '
